@@ -172,7 +172,7 @@ def run(ctx, env):
 
     # R3.7 the V5 / V7 wrappers apply the packet parser to exactly the bytes they are handed
     ctx.rule("R3.7", "V5Parser::parse / V7Parser::parse apply the derived packet parser to their own argument - all of it, from its first byte - and report that parser's remainder and packet unchanged (shared with C02 R2.5): nothing is stripped, skipped or re-framed in front of the fixed layout")
-    c02.wrappers_rule(ctx, prog, an, rid="R3.7", rid_err=None, versions=(5, 7))
+    c02.wrappers_rule(ctx, prog, an, rid="R3.7", rid_err="R3.7", versions=(5, 7))
     # R3.8
     ctx.rule("R3.8", "a packet is handed to the V5 / V7 parser only when its whole 16-bit version word is 5 / 7: the dispatch value is the plain 2-byte big-endian word (shared with C12 R12.5), so the constant the decoders inject as `version` is what the input held")
     from . import c12 as _c12
